@@ -218,15 +218,19 @@ def step_indexes(tier, naming="chr"):
     return ("default",) if naming == "chr" else ("shifted",)
 
 
-def lay_out(per_kind, naming, extra=None):
+def lay_out(per_kind, naming, extra=None, interleave=False):
     """rows (chromosome-grouped, coordinates increasing) and info [(kind, value...)] from {kind: [values]}; a value is the log2
-    or a tuple whose first element is the log2 and whose rest becomes extra columns."""
+    or a tuple whose first element is the log2 and whose rest becomes extra columns.  interleave: the same rows dealt round-robin
+    over the chromosomes (a table assembled through the API need not keep a chromosome's rows together)."""
     rows, info = [], []
     for kind in KINDS:
         for i, item in enumerate(per_kind.get(kind, [])):
             tup = item if isinstance(item, tuple) else (item,)
             rows.append((chrom_name(kind, naming), 1000 + 1000 * i, 1500 + 1000 * i, "G%d" % len(rows)) + tup)
             info.append((kind,) + tup)
+    if interleave:
+        order = sorted(range(len(rows)), key=lambda j: (rows[j][1], KINDS.index(info[j][0])))
+        rows, info = [rows[j] for j in order], [info[j] for j in order]
     return rows, info
 
 
@@ -373,39 +377,41 @@ def run_step(case, ctx):
             for kind in KINDS:
                 pts = log2_points(thr, M.reference_candidates(kind, ploidy, male_ref))
                 per_kind[kind] = pts[: len(pts) // 2] + [NAN] + pts[len(pts) // 2 :]
-            rows, info = lay_out(per_kind, naming)
-            kinds = [i[0] for i in info]
-            logs = [i[1] for i in info]
-            for index in step_indexes(ctx.tier, naming):
-                cna = build(rows, COLS, index)
-                cfg = {"naming": naming, "male_reference": male_ref, "index": index}
-                ctx.stratum("step-index:" + index)
+            for interleave in ((False, True) if ctx.tier == "thorough" else (male_ref,)):
+                rows, info = lay_out(per_kind, naming, interleave=interleave)
+                ctx.stratum("step-rows:" + ("chromosomes interleaved" if interleave else "chromosome-grouped"))
+                kinds = [i[0] for i in info]
+                logs = [i[1] for i in info]
+                for index in step_indexes(ctx.tier, naming):
+                    cna = build(rows, COLS, index)
+                    cfg = {"naming": naming, "male_reference": male_ref, "index": index}
+                    ctx.stratum("step-index:" + index)
 
-                def sub_of(j, r, cfg=cfg, rows=rows):
-                    return {**cfg, "row": list(rows[j]), "r": r, "thresholds_below": sum(1 for t in thr if t < rows[j][4])}
+                    def sub_of(j, r, cfg=cfg, rows=rows):
+                        return {**cfg, "row": list(rows[j]), "r": r, "thresholds_below": sum(1 for t in thr if t < rows[j][4])}
 
-                if arg is None:
-                    out = ctx.call(CALL.do_call, cna, None, "threshold", ploidy, None, male_ref)
-                else:
-                    out = ctx.call(CALL.do_call, cna, None, "threshold", ploidy, None, male_ref, False, None, None, arg)
-                df = basic(ctx, out, rows, "do_call(threshold)", "step/do_call", cfg)
-                if df is not None:
-                    cns = df["cn"].tolist()
-                    judge_step(ctx, "do_call", cns, logs, kinds, thr, ploidy, male_ref, "step", sub_of, arg is None)
-                    record_rows(ctx, cns, logs, kinds, thr)
-                h = ctx.call(CALL.absolute_threshold, cna, ploidy, arg if arg is not None else DEFAULT, male_ref)
-                if isinstance(h, Exc):
-                    ctx.violation("absolute_threshold returns a result", f"step/absolute_threshold/raises/{h.key}", observed=h, sub=cfg)
-                elif len(h) != len(rows):
-                    ctx.violation("the number of rows never changes", "step/absolute_threshold/row-count", expected=len(rows), observed=len(h), sub=cfg)
-                else:
-                    ctx.trace()
-                    judge_step(ctx, "absolute_threshold", [float(x) for x in h], logs, kinds, thr, ploidy, male_ref, "step", sub_of, arg is None)
-                for kind in KINDS:
-                    rc = rclass(kind, ploidy, male_ref)
-                    ctx.state(("step", vec["thresholds"], vec["container"], ploidy, naming, male_ref, index, kind), nontrivial=rc != "r=ploidy")
-                    ctx.stratum("step-class:" + kind + "/" + rc)
-                tables += 1
+                    if arg is None:
+                        out = ctx.call(CALL.do_call, cna, None, "threshold", ploidy, None, male_ref)
+                    else:
+                        out = ctx.call(CALL.do_call, cna, None, "threshold", ploidy, None, male_ref, False, None, None, arg)
+                    df = basic(ctx, out, rows, "do_call(threshold)", "step/do_call", cfg)
+                    if df is not None:
+                        cns = df["cn"].tolist()
+                        judge_step(ctx, "do_call", cns, logs, kinds, thr, ploidy, male_ref, "step", sub_of, arg is None)
+                        record_rows(ctx, cns, logs, kinds, thr)
+                    h = ctx.call(CALL.absolute_threshold, cna, ploidy, arg if arg is not None else DEFAULT, male_ref)
+                    if isinstance(h, Exc):
+                        ctx.violation("absolute_threshold returns a result", f"step/absolute_threshold/raises/{h.key}", observed=h, sub=cfg)
+                    elif len(h) != len(rows):
+                        ctx.violation("the number of rows never changes", "step/absolute_threshold/row-count", expected=len(rows), observed=len(h), sub=cfg)
+                    else:
+                        ctx.trace()
+                        judge_step(ctx, "absolute_threshold", [float(x) for x in h], logs, kinds, thr, ploidy, male_ref, "step", sub_of, arg is None)
+                    for kind in KINDS:
+                        rc = rclass(kind, ploidy, male_ref)
+                        ctx.state(("step", vec["thresholds"], vec["container"], ploidy, naming, male_ref, index, kind), nontrivial=rc != "r=ploidy")
+                        ctx.stratum("step-class:" + kind + "/" + rc)
+                    tables += 1
     ctx.sample("step", {"case": case, "tables": tables, "rows_per_table": len(rows), "first_rows": [list(r) for r in rows[:3]]})
 
 
